@@ -13,6 +13,11 @@ import (
 
 	"github.com/segmentio/kafka-go/protocol"
 
+	kafka "github.com/segmentio/kafka-go"
+	"github.com/segmentio/kafka-go/sasl"
+	"github.com/segmentio/kafka-go/sasl/plain"
+	"github.com/segmentio/kafka-go/sasl/scram"
+
 	"verif/engine/bub"
 	"verif/engine/fk"
 	"verif/engine/qx"
@@ -31,6 +36,9 @@ type clientCase struct {
 	nth   int // which response of the op's api key is mutated
 	field int // index into the frame's length fields
 	mut   int // index into mutations(field)
+	// raw SASL answers (handshake v0): mechanism, which answer of the exchange, and the value class of its length
+	sasl  string
+	round int
 }
 
 // libraryRecordSet encodes record sets with the library's own encoder (their interior is the subject of the
@@ -180,6 +188,98 @@ func clientCases(sch *refschema.Schema) []Case {
 					cc := clientCase{op: oi, nth: nth, field: f, mut: m}
 					out = append(out, Case{ID: fmt.Sprintf("client %s response#%d field#%d mutation#%d", ops[oi].Name, nth, f, m), Key: ops[oi].Key, Kind: "client", Class: "client", client: &cc})
 				}
+			}
+		}
+	}
+	return out
+}
+
+// The raw SASL exchange of handshake v0 (tokens behind a bare 4-byte length, no Kafka header) is read by the
+// Transport with its own reader: a Client call over a Transport with SASL configured, against a broker that
+// only offers SaslHandshake v0, in which the n-th raw answer carries a lying length.
+func saslMech(name string) sasl.Mechanism {
+	if name == "PLAIN" {
+		return plain.Mechanism{Username: "alice", Password: "secret"}
+	}
+	m, err := scram.Mechanism(scram.SHA256, "alice", "secret")
+	if err != nil {
+		panic(err)
+	}
+	return m
+}
+
+func saslLenField(frame []byte) refschema.LenField {
+	return refschema.LenField{Off: 0, Size: 4, Kind: "frame-size", Value: int64(len(frame) - 4), Path: "raw-sasl-answer"}
+}
+
+func runSASL(cc clientCase) (r clientRun) {
+	var ms0, ms1 runtime.MemStats
+	streamBytes := 0
+	br := bub.Run(curT, time.Second, func() {
+		c := hx.NewCluster()
+		c.SASL = &fk.SASLConfig{Mechanisms: []string{"PLAIN", "SCRAM-SHA-256"}, Users: map[string]string{"alice": "secret"}}
+		vs := hx.Versions(map[protocol.ApiKey]fk.VRange{protocol.SaslHandshake: {0, 0}})
+		c.Versions = map[int]map[protocol.ApiKey]fk.VRange{1: vs, 2: vs}
+		seen := 0
+		c.RawAuthMutate = func(round int, frame []byte) []byte {
+			streamBytes += len(frame)
+			n := seen
+			seen++
+			l := saslLenField(frame)
+			ms := mutations(l, len(frame)-4)
+			r.nlens = append(r.nlens, 1)
+			r.nmuts = append(r.nmuts, []int{len(ms)})
+			if cc.field < 0 || n != cc.round || cc.mut >= len(ms) {
+				return frame
+			}
+			m := ms[cc.mut]
+			r.frames++
+			r.key = fmt.Sprintf("sasl-%s:answer#%d:%s", cc.sasl, n, m.class)
+			return append(append([]byte{}, m.bytes...), frame[4:]...)
+		}
+		cl, tr := clientops.NewClient(c)
+		tr.SASL = saslMech(cc.sasl)
+		defer tr.CloseIdleConnections()
+		runtime.ReadMemStats(&ms0)
+		ctx, cancel := context.WithTimeout(context.Background(), 8*time.Second)
+		defer cancel()
+		func() {
+			defer func() {
+				if p := recover(); p != nil {
+					st := string(debug.Stack())
+					r.sig = "panic:" + qx.PanicSite(st)
+					r.msg = fmt.Sprintf("panic in the calling goroutine: %v at %s", p, qx.PanicSite(st))
+				}
+			}()
+			_, err := cl.Metadata(ctx, &kafka.MetadataRequest{Topics: []string{"t"}})
+			if err != nil {
+				r.key += ":error"
+			} else {
+				r.key += ":ok"
+			}
+		}()
+		runtime.ReadMemStats(&ms1)
+	})
+	if br.Panic != "" && r.sig == "" {
+		r.sig = "panic:" + qx.PanicSite(br.Panic)
+		r.msg = "panic: " + firstLine(br.Panic)
+	}
+	alloc := ms1.TotalAlloc - ms0.TotalAlloc
+	if limit := uint64(4<<20 + allocPerByte*streamBytes); r.sig == "" && alloc > limit {
+		r.sig = "balloon:raw-sasl-answer"
+		r.msg = fmt.Sprintf("the exchange received %d bytes of SASL answers and the operation allocated %d (limit %d)", streamBytes, alloc, limit)
+	}
+	return r
+}
+
+func saslCases() []Case {
+	var out []Case
+	for _, mech := range []string{"PLAIN", "SCRAM-SHA-256"} {
+		d := runSASL(clientCase{sasl: mech, field: -1})
+		for round := range d.nlens {
+			for m := 0; m < d.nmuts[round][0]; m++ {
+				cc := clientCase{sasl: mech, round: round, mut: m}
+				out = append(out, Case{ID: fmt.Sprintf("sasl %s raw answer#%d length mutation#%d", mech, round, m), Key: protocol.SaslAuthenticate, Kind: "raw-sasl", Class: "client", client: &cc})
 			}
 		}
 	}
